@@ -63,20 +63,37 @@ def all_tags(text):
 
 
 def classify(spec, opts, dname, lname, msg):
-    """F19: the only difference is lost sharing of instances of str/int subclasses - confirmed by the counterfactual:
-    the same graph with a separate instance per reference comes back exactly like pickle's."""
-    if 'sharing differs' not in msg:
-        return None
-    s2, changed = SH.unshare(spec)
-    if not changed:
-        return None
-    try:
-        g2 = SH.build(s2)
-        ref2 = pickle.loads(pickle.dumps(g2, 2))
-        y2 = yaml.load(yaml.dump(SH.build(s2), Dumper=getattr(yaml, dname), **opts), Loader=getattr(yaml, lname))
-    except Exception:
-        return None
-    return 'F19' if bisim.diff(ref2, y2, track_tuples=True) is None else None
+    """Known mechanisms, each confirmed by its counterfactual; several may be at work in one graph ('A+B'): the
+    counterfactual transformations are applied one after the other until the graph is rebuilt exactly like pickle's.
+    F19: lost sharing of instances of str/int subclasses (one separate instance per reference instead).
+    F25: a falsy state is not applied (truthy states instead).
+    F26: an eager reader in a deep context sees an earlier, still empty container (a private inline copy instead)."""
+    mechs = []
+    cur = spec
+    for _ in range(4):
+        if 'sharing differs' in msg and 'F19' not in mechs:
+            cur, changed = SH.unshare(cur)
+            name = 'F19'
+        elif '.restored' in msg and 'sharing differs' not in msg and 'F25' not in mechs:
+            cur, changed = SH.truthy_states(cur)
+            name = 'F25'
+        elif ('.size' in msg or '.seen' in msg) and 'sharing differs' not in msg and 'F26' not in mechs:
+            cur, changed = SH.privatize(cur)
+            name = 'F26'
+        else:
+            return None
+        if not changed:
+            return None
+        mechs.append(name)
+        try:
+            ref2 = pickle.loads(pickle.dumps(SH.build(cur), 2))
+            y2 = yaml.load(yaml.dump(SH.build(cur), Dumper=getattr(yaml, dname), **opts), Loader=getattr(yaml, lname))
+        except Exception:
+            return None
+        msg = bisim.diff(ref2, y2, track_tuples=True)
+        if msg is None:
+            return '+'.join(sorted(mechs))
+    return None
 
 
 def check_graph(spec, opts, ctx, case):
